@@ -404,6 +404,29 @@ impl Responder {
     }
 }
 
+#[cfg(feature = "verif")]
+impl Responder {
+    /// Snapshot of the pruned tx index for the verification harness:
+    /// (txid, block hash) entries, blocks oldest-first with their txids, and the height reported per block.
+    #[allow(clippy::type_complexity)]
+    pub fn verif_tx_index(
+        &self,
+    ) -> (
+        Vec<(Txid, BlockHash)>,
+        Vec<(BlockHash, Vec<Txid>, Option<usize>)>,
+    ) {
+        let index = self.tx_index.lock().unwrap();
+        let (entries, blocks, _, _) = index.verif_snapshot();
+        (
+            entries,
+            blocks
+                .into_iter()
+                .map(|(b, ks)| (b, ks, index.get_height(&b)))
+                .collect(),
+        )
+    }
+}
+
 /// Listen implementation by the [Responder]. Handles monitoring and reorgs.
 impl chain::Listen for Responder {
     /// Handles the monitoring process by the [Responder].
